@@ -19,6 +19,7 @@ import (
 //	fhName[f]    path an open *os.File refers to
 //	fsTemps[p]   p was created by os.CreateTemp
 //	fsFaults     number of file-system steps that have failed so far
+//	fsLiveTemps  number of CreateTemp files still present under their temporary name
 //
 // The functions marked //kvc:model are the *trusted* semantics of the os / io
 // calls used by the installer: every step may fail (nondeterministically, or
@@ -33,6 +34,8 @@ var (
 	fhName    = map[*os.File]string{}
 	fsTemps   = map[string]bool{}
 	fsFaults  int
+	// fsLiveTemps counts temp files created by os.CreateTemp that still exist under their temp name.
+	fsLiveTemps int
 )
 
 const (
@@ -116,6 +119,7 @@ func model_os_CreateTemp(dir, pattern string) (*os.File, error) {
 	fsContent[t] = nil
 	fsMode[t] = 0o600
 	fsTemps[t] = true
+	fsLiveTemps++
 	fhName[f] = t
 	vs.CrashPoint("CreateTemp")
 	return f, nil
@@ -182,6 +186,9 @@ func model_os_Rename(oldpath, newpath string) error {
 	fsMode[newpath] = fsMode[oldpath]
 	if oldpath != newpath {
 		fsKind[oldpath] = kindAbsent
+		if fsTemps[oldpath] {
+			fsLiveTemps--
+		}
 	}
 	vs.CrashPoint("Rename")
 	return nil
@@ -192,6 +199,9 @@ func model_os_Remove(name string) error {
 	if vs.NondetBool() || fsKind[name] == kindAbsent {
 		fsFaults++
 		return vs.SomeError()
+	}
+	if fsKind[name] == kindFile && fsTemps[name] {
+		fsLiveTemps--
 	}
 	fsKind[name] = kindAbsent
 	vs.CrashPoint("Remove")
@@ -226,14 +236,10 @@ func contract_InstallFile(targetDir string, fileName string, content []byte) (re
 		return vs.Implies(q != finalPath(targetDir, fileName) && vs.Old(fsKind[q]) != kindAbsent, unchangedEntry(q))
 	}))
 	vs.Ensures("success_installs", vs.Implies(retErr == nil, installed(finalPath(targetDir, fileName), content)))
-	vs.Ensures("success_leaves_no_temp", vs.Implies(retErr == nil, vs.ForallString(func(q string) bool {
-		return vs.Implies(fsTemps[q] && !vs.Old(fsTemps[q]), fsKind[q] == kindAbsent)
-	})))
+	vs.Ensures("success_leaves_no_temp", vs.Implies(retErr == nil, fsLiveTemps == vs.Old(fsLiveTemps)))
 	vs.Ensures("every_failure_reported", vs.Implies(retErr == nil, fsFaults == vs.Old(fsFaults)))
 	vs.Ensures("error_keeps_previous_destination", vs.Implies(retErr != nil && fsFaults <= vs.Old(fsFaults)+1, unchangedEntry(finalPath(targetDir, fileName))))
-	vs.Ensures("error_leaves_no_temp", vs.Implies(retErr != nil && fsFaults <= vs.Old(fsFaults)+1, vs.ForallString(func(q string) bool {
-		return vs.Implies(fsTemps[q] && !vs.Old(fsTemps[q]), fsKind[q] == kindAbsent)
-	})))
+	vs.Ensures("error_leaves_no_temp", vs.Implies(retErr != nil && fsFaults <= vs.Old(fsFaults)+1, fsLiveTemps == vs.Old(fsLiveTemps)))
 	vs.Ensures("others_untouched", vs.ForallString(func(q string) bool {
 		return vs.Implies(q != finalPath(targetDir, fileName) && vs.Old(fsKind[q]) != kindAbsent, unchangedEntry(q))
 	}))
@@ -241,7 +247,7 @@ func contract_InstallFile(targetDir string, fileName string, content []byte) (re
 		return vs.Implies(vs.Old(fsKind[q]) == kindAbsent && fsKind[q] != kindAbsent,
 			q == finalPath(targetDir, fileName) || fsTemps[q] || (fsKind[q] == kindDir && (q == targetDir || pathUnder(q, targetDir))))
 	}))
-	vs.Modifies(fsKind, fsContent, fsMode, fhName, fsTemps, fsFaults)
+	vs.Modifies(fsKind, fsContent, fsMode, fhName, fsTemps, fsFaults, fsLiveTemps)
 	vs.Allocates()
 	return
 }
